@@ -98,6 +98,17 @@ CHECKS = {
         note="Termination is an event budget, not a proof; surplus (clamped) exit events are not observable state and are not reported; interpreter recursion limit 1000.",
         design="§5 C08",
     ),
+    "C12": dict(
+        category="exploration",
+        technique="Hypothesis-constructed specs x core layouts x history (fresh project / shared core holding drifted runtime files) through generate_client; AST scan of every import node of every emitted file (module level, nested, TYPE_CHECKING) against an allow-list; fresh child interpreter with the generator blocked at the meta path running an exercise script (round-trips, get_mapping(), every client method); byte comparison of the copied runtime files",
+        text="~850 packages per quick run. Every import statement of every emitted file must name the standard library, httpx, cattrs, "
+             "the output package or its core; the package is imported and exercised where `pyopenapi_gen` cannot be imported, so a "
+             "generator import hidden in a function body of a rarely emitted template is executed; the 8 runtime files must equal "
+             "the generator's own, also when a shared core already contained drifted copies. One open finding (guarded `import black` "
+             "in the copied utils.py) is matched by its exact signature.",
+        note="Exercise arguments are generic; decoding problems during the exercise are ignored (C03), only missing modules count; documentation examples inside docstrings are not imports.",
+        design="§5 C12",
+    ),
     "C13": dict(
         category="exploration",
         technique="Hypothesis-constructed operation sets (multi-tag, tag spelling variants, overloaded multi-content, streaming, hostile parameter names) through generate_client; introspection oracle on the imported classes (method sets, inspect.signature incl. resolved annotations, coroutine/async-generator nature, typing.get_overloads, runtime_checkable isinstance, NotImplementedError from every mock method, MockAPIClient tag properties)",
